@@ -120,6 +120,10 @@ pub fn extra_pool() -> Vec<File> {
             out.push(File { lets: vec![], rules: vec![rule("r0", vec![vec![c.clone(), lp[0].clone()]]), rule("r1", vec![vec![lp[1].clone()], vec![c]])], default: vec![] });
         }
     }
+    // a satisfied `not r0` next to a failing clause (the rule is non-compliant, the reference is not why)
+    for k in [0usize, 1, 9] {
+        out.push(File { lets: vec![], rules: vec![rule("r0", vec![vec![lp[k].clone()]]), rule("r1", vec![vec![named("r0").with_not(true)], vec![lp[1].clone()]]), rule("r2", vec![vec![lp[0].clone()], vec![named("r0")], vec![named("r1").with_not(true)]])], default: vec![] });
+    }
     // filters whose own tests are not checks of the rule: a key filter that rejects some keys, a filter on the scalars selected
     // by `[*]` that drops some elements (the clause behind the filter fails on what is left)
     out.push(file1(rule("r0", vec![vec![bin(vec![key("a"), Part::KeysFilter(false, BinOp::Eq, V::Regex("^a".into()))], BinOp::Eq, false, i(9))]])));
@@ -378,6 +382,41 @@ fn check_run_layout(files: &[File], doc_json: &str, acc: &mut Acc, class: &str, 
             for m in msgs {
                 if fm.contains(m) {
                     bad("filter-test-listed-as-check", format!("rule {} lists a check with message {:?}, which is written on a clause inside a filter", n, m));
+                }
+            }
+        }
+    }
+    // (3c) a clause that names a rule is satisfied or not by that rule's status alone (PASS iff the rule is PASS, inverted under
+    //      `not`): the message of a satisfied reference is never listed as a failed check
+    {
+        fn named_msgs(c: &Cnf, out: &mut Vec<(String, bool, String)>) {
+            for line in c {
+                for alt in line {
+                    match alt {
+                        Clause::Named { name, not, msg: Some(m), .. } => out.push((name.clone(), *not, m.clone())),
+                        Clause::Block { body, .. } => named_msgs(body, out),
+                        Clause::When { body, .. } => named_msgs(body, out),
+                        Clause::TypeBlock { body, .. } => named_msgs(body, out),
+                        _ => {}
+                    }
+                }
+            }
+        }
+        for f in files {
+            for rl in &f.rules {
+                let mut nm = vec![];
+                named_msgs(&rl.body, &mut nm);
+                let listed_here: Vec<&String> = r.not_compliant.iter().filter(|(n, _)| bare(n) == rl.name).flat_map(|(_, ms)| ms.iter()).collect();
+                for (dep, not, m) in nm {
+                    // statuses of all definitions of the referenced rule: first definition that is not SKIP decides
+                    let dst: Vec<St> = expected.iter().filter(|(n, _)| *n == dep).map(|(_, st)| *st).collect();
+                    if dst.len() != 1 {
+                        continue;
+                    }
+                    let satisfied = (dst[0] == St::Pass) != not;
+                    if satisfied && listed_here.iter().any(|x| **x == m) {
+                        bad("satisfied-rule-reference-listed", format!("rule {} lists the message {:?} of its clause `{}{}`, which is satisfied ({} is {:?})", rl.name, m, if not { "not " } else { "" }, dep, dep, dst[0]));
+                    }
                 }
             }
         }
